@@ -18,7 +18,7 @@ Definition sub_settled (r : sub_result) : Prop :=
 
 Lemma subscribe_op_settled ES R o vv W :
   cost_schema_accepted ES = true ->
-  ExeA.ArgSpec.conds_ok ES (ExeA.ArgData.doc_of R o vv) (ExeA.ArgArgs.env_of_vars vv) = true ->
+  ExeA.ArgSpec.conds_gen ES (ExeA.ArgData.doc_of R o vv) (ExeA.ArgArgs.env_of_vars vv) false = true ->
   sub_settled (subscribe_op ES R o vv W).
 Proof.
   intros Hs Hconds. unfold subscribe_op.
@@ -31,9 +31,9 @@ Proof.
   pose proof (ExeA.ArgFuelProofs.collect_fuel_sufficient ES D E st (ExeA.ArgData.o_sels o) [] Hdepth) as Hfuel.
   destruct (ExeA.ArgSpec.s_collect_flat ES D E (ExeA.ArgModel.default_fuel D) st (ExeA.ArgData.o_sels o) []) as [[v flat]|] eqn:Ef;
     [|contradiction].
-  assert (Hok : forallb (ExeA.ArgSpec.sel_conds_ok ES E) (ExeA.ArgData.o_sels o) = true).
-  { unfold ExeA.ArgSpec.conds_ok in Hconds. apply andb_true_iff in Hconds as [H _]. exact H. }
-  destruct (ExeA.ArgCollectProofs.collect_sim ES D E Hconds (ExeA.ArgModel.default_fuel D) st (ExeA.ArgData.o_sels o) [] [] v flat Hok Ef)
+  assert (Hok : forallb (ExeA.ArgSpec.sel_conds_gen ES E false) (ExeA.ArgData.o_sels o) = true).
+  { pose proof Hconds as H0. unfold ExeA.ArgSpec.conds_gen in H0. apply andb_true_iff in H0 as [H _]. exact H. }
+  destruct (ExeA.ArgCollectProofs.collect_sim ES D E false Hconds (ExeA.ArgModel.default_fuel D) st (ExeA.ArgData.o_sels o) [] [] v flat Hok Ef)
     as [Hc _].
   rewrite Hc. destruct (ExeA.ArgCollectProofs.append_flat flat []) as [|x [|y r]]; try exact I.
   destruct (sub_field ES st (ExeA.ArgData.fn_name (ExeA.ArgModel.g_first x))); [|exact I].
@@ -45,16 +45,15 @@ Qed.
 Theorem subscribe_never_crashes pi VS F ES bs opname raw W :
   Vld.ProofsCommon.order_ok pi ->
   schema_accepted ES = true -> cost_schema_accepted ES = true -> schemas_agree VS ES = true ->
-  request_evaluable pi VS F ES bs opname raw ->
   sub_settled (subscribe_order pi VS F ES bs opname raw W).
 Proof.
-  intros Hpi Hn Hs Ha Hev. unfold subscribe_order.
+  intros Hpi Hn Hs Ha. unfold subscribe_order.
   destruct (front_cases pi Hpi VS F bs) as [(e & es & t & H & _)|[(d & e & es & H & _)|(d & H & _)]]; rewrite H; try exact I.
   unfold subscribe_doc.
   destruct (ExeA.ArgModel.get_operation (exe_of_syn d) opname) as [o|p|] eqn:Hg; try exact I.
   destruct (ExeA.ArgModel.coerce_request_vars ES o raw) as [vv| |] eqn:Hv; try exact I.
   - apply subscribe_op_settled; [exact Hs|].
-    exact (accepted_conds_ok pi VS F ES bs d opname o vv _ Hpi Ha H Hg (Hev d o vv H Hg Hv)).
+    exact (accepted_conds_gen pi VS F ES bs d opname o vv _ Hpi Ha H Hg).
   - apply andb_true_iff in Hn as [_ HC]. unfold ExeA.ArgModel.coerce_request_vars in Hv.
     exact (Val.CoerceTotal.variable_values_no_panic _ _ HC _ _ _ Hv).
 Qed.
